@@ -310,7 +310,10 @@ class Result(object):
             self.extra['disagreements_truncated'] = self.extra.get('disagreements_truncated', 0) + 1
 
     def violate(self, case, what, cls=None, expected=None, observed=None):
-        if len(self.violations) < 500:
+        # the cap is per class: a recorded known finding must not crowd out an unlisted violation
+        self._per_class = getattr(self, '_per_class', {})
+        self._per_class[cls] = self._per_class.get(cls, 0) + 1
+        if self._per_class[cls] <= 500:
             self.violations.append({'case': case, 'what': what, 'class': cls,
                                     'expected': expected, 'observed': observed})
         else:
